@@ -109,8 +109,11 @@ static void printf_grid() {
 				std::vector<Val> vals; std::vector<size_t> unterminated_len;
 				if(is_int) vals = int_values(len, is_signed, r, my % 2);
 				else if(conv == 'c') vals = {{'a', "pos"}, {(uint64_t)'Z' | 0xabcdef00ull << 8, "pos"}};
-				else if(wide_s) vals = {{wstr_slot(L""), "zero"}, {wstr_slot(L"a"), "pos"}, {wstr_slot(L"hello world"), "pos"}, {wstr_slot(std::wstring(80, L'x')), "pos"}};
-				else if(conv == 's') vals = {{str_slot(""), "zero"}, {str_slot("a"), "pos"}, {str_slot("hello world"), "pos"}, {str_slot(std::string(80, 'x')), "pos"}};
+				else if(wide_s) { vals = {{wstr_slot(L""), "zero"}, {wstr_slot(L"a"), "pos"}, {wstr_slot(L"hello world"), "pos"}, {wstr_slot(std::wstring(80, L'x')), "pos"}};
+					if(my % 4 == 0) for(size_t n : {127, 128, 129, 300}) { std::wstring z; for(size_t i = 0; i < n; i++) z.push_back(L'a' + (wchar_t)(i % 26)); vals.push_back({wstr_slot(z), "long"}); } }
+				else if(conv == 's') { vals = {{str_slot(""), "zero"}, {str_slot("a"), "pos"}, {str_slot("hello world"), "pos"}, {str_slot(std::string(80, 'x')), "pos"}};
+					// long strings (a helper that copies through a fixed-size block shows at its block size): every character distinct from its neighbours
+					if(my % 4 == 0) for(size_t n : {127, 128, 129, 255, 256, 257, 1000}) { std::string z; for(size_t i = 0; i < n; i++) z.push_back((char)('a' + i % 26)); vals.push_back({str_slot(z), "long"}); } }
 				else vals = {{0, "zero"}, {0xdeadbeefull, "pos"}, {~0ull, "pos"}, {0x7ffc12345678ull, "pos"}};
 				// ISO C: with a precision, %s takes an array that need not be terminated; at most `precision` elements are read
 				if(conv == 's' && p != "") {
